@@ -65,6 +65,8 @@ type TplPage struct {
 
 type TplBadOut struct {
 	Kind      string `json:"kind"`
+	// Keys: the items of the page, when the answer is a page
+	Keys      []string `json:"keys"`
 	Status    int    `json:"status"`
 	ErrorCode string `json:"errorCode"`
 	BodyHead  string `json:"bodyHead"`
@@ -76,6 +78,9 @@ type TplOut struct {
 	Run      []TplPage   `json:"run"`
 	List     []TplPage   `json:"list"`
 	Bad      []TplBadOut `json:"bad"`
+	// PlainFirst: first page of the UNFILTERED direct list query with the case's page size (what an offset
+	// cursor without sort column and without filter describes: default column, default order, offset 0)
+	PlainFirst TplPage  `json:"plainFirst"`
 	Changed  []string    `json:"changed"`
 	Events   []string    `json:"events"`
 }
@@ -308,11 +313,24 @@ func RunTpl(in TplIn) (TplOut, error) {
 	out.Run, out.Resource, validNext = e.runTemplate(in)
 	out.List, _ = e.runList(in.Resource, in.Filter, in.PageSize)
 	// a valid cursor of another resource's listing
-	other := map[string]string{"accounts": "transactions", "transactions": "accounts", "logs": "volumes", "volumes": "accounts"}[in.Resource]
+	if plain, _ := e.runList(in.Resource, "", in.PageSize); len(plain) > 0 {
+		out.PlainFirst = plain[0]
+	}
+	// (for volumes the foreign cursor is a transactions one: an accounts cursor names `address`, which the
+	// volumes schema knows as a field — see kind "volumes-column-address")
+	other := map[string]string{"accounts": "transactions", "transactions": "accounts", "logs": "volumes", "volumes": "transactions"}[in.Resource]
 	_, otherNext := e.runList(other, "", 1)
 	for _, bad := range in.Bad {
 		cur := bad.Cursor
 		switch bad.Kind {
+		case "no-column":
+			cur = b64(fmt.Sprintf(`{"pageSize":%d,"offset":0}`, in.PageSize))
+		case "no-column-junk-options":
+			cur = b64(fmt.Sprintf(`{"pageSize":%d,"offset":0,"options":{"qb":{"$nope":{"x":1}}},"zzz":[1,2]}`, in.PageSize))
+		case "volumes-column-address":
+			if in.Resource != "volumes" {
+				continue
+			}
 		case "other-resource":
 			cur = otherNext
 		case "damaged", "truncated":
@@ -335,7 +353,11 @@ func RunTpl(in TplIn) (TplOut, error) {
 		}
 		cb, _ := json.Marshal(map[string]string{"cursor": cur})
 		st, body, p := e.call("POST", "/v2/tpl/queries/"+in.Template+"/run?schemaVersion=v1", string(cb))
-		bo := TplBadOut{Kind: bad.Kind, Status: st, Panic: p}
+		bo := TplBadOut{Kind: bad.Kind, Status: st, Panic: p, Keys: []string{}}
+		if st == 200 {
+			pg, _, _ := parsePage(in.Resource, st, body)
+			bo.Keys = pg.Keys
+		}
 		var parsed map[string]any
 		if json.Unmarshal(body, &parsed) == nil {
 			if s, ok := parsed["errorCode"].(string); ok {
@@ -373,8 +395,8 @@ func badCursors(r *rand.Rand) []TplBad {
 		{"offset-string", b64(`{"pageSize":1,"offset":"y"}`)},
 		{"offset-negative", b64(`{"pageSize":1,"offset":-1}`)},
 		{"order-bad", b64(`{"pageSize":1,"column":"id","order":"sideways","paginationID":1}`)},
-		{"filter-bad", b64(`{"pageSize":1,"offset":0,"options":{"qb":{"$nope":{"x":1}}}}`)},
-		{"filter-not-object", b64(`{"pageSize":1,"offset":0,"options":{"qb":[1,2]}}`)},
+		{"no-column", ""}, {"no-column-junk-options", ""},
+		{"volumes-column-address", b64(`{"pageSize":1,"offset":0,"column":"address"}`)},
 		{"std-b64-binary", base64.StdEncoding.EncodeToString([]byte{0xff, 0xfe, 0x00, 0x01})},
 		{"damaged", ""}, {"truncated", ""}, {"other-resource", ""},
 	}
